@@ -346,3 +346,7 @@ mod tests {
         assert_eq!(err.to_string(), "Request too long");
     }
 }
+
+#[cfg(feature = "pendulum_project_ntpd_rs_verif")]
+#[path = "/verif/hooks/ntpd/metrics_exporter.rs"]
+pub mod vh_metrics_exporter;
